@@ -13,7 +13,8 @@ META = dict(
                 '(Sweeping; seeded Random; Evolution with any initialiser, any reproduction, update None/Last n/Top n/newest-generation/recorded table; Deduping over any of these with any '
                 'hash, auto-reward, max_duplicates, max_proposal_attempts; only Deduping directly over Deduping is excluded), for every schedule of propose / feedback-in-order / abandon events '
                 '(hence every crash point k and every number w of missing rewards) a fresh instance that replays the persisted history has the same num_proposals, num_feedbacks, population '
-                '(values, fitness, ids) and de-duplication cache as the uninterrupted run, including the wrapped Evolution of a Deduping (C15_recover_observable, C15_crash_points, C15_recover_counts); '
+                '(values, fitness, ids) and de-duplication cache as the uninterrupted run, including the wrapped Evolution of a Deduping (C15_recover_observable, C15_crash_points, C15_recover_counts, C15_shipped_algorithms), '
+                'also when the history holds the DNAs as they were proposed, without feedback metadata, or the last reward was never fed back (C15_recover_from_stored_proposals); '
                 'Sweeping, seeded Random and Deduping over them then make exactly the same further proposals, any number of them (C15_continuation); the Deduping wrapper preserves recoverability of '
                 'any generator (C15_dedup_wrapper); Evolution with ARBITRARY operators over an arbitrary global state recovers counters and population when the update reads only state that '
                 'reproduction does not change (C15_evolution_any_operators_partial: NSGA2/NEAT). Tie: the model is run against the real classes on every crash point of every generated run '
